@@ -4,17 +4,19 @@
    (NotNan<f64> in the code; rank_from_value = DefaultHasher(v) as f64 / 2^64 is passed to the
    model as data). Definitions only; proofs are in Proofs/KMVProofs.v.
 
-   Representation: `heap: BinaryHeap<NotNan<f64>>` (a max-heap) is modelled by its content as a
-   DESCENDING list (head = heap.peek(), pop removes the head, push inserts in order).
+   Representation: `heap: BinaryHeap<NotNan<f64>>` (a max-heap) is modelled by its content as an
+   ASCENDING list (heap.peek() = the last element, pop removes the last element, push inserts
+   in order; the priority-queue contract of BinaryHeap is assumed, not proved).
    `set: HashSet<NotNan<f64>>` always holds exactly the heap's content when k >= 1 (try_insert
    inserts into / removes from both in step; `KMVApproxDistinctCount::new` clamps k to >= 4), so
    the model keeps one list for both: `set.insert(r)` fails <-> r is in the list;
    `set.len()` = its length. *)
 From Coq Require Import List Bool Arith.
+From IB Require Import Combiners.Lawful.
 Import ListNotations.
 
 Record kmv (R : Type) := { k_items : list R; k_k : nat }.
-Arguments k_items {R} a. Arguments k_k {R} a.
+Arguments k_items {R} _. Arguments k_k {R} _.
 
 (* result of KMVAcc::finish before conversion to f64:
    KCount m      = `m as f64`            (m = 0, or fewer than k distinct ranks: exact count)
@@ -32,11 +34,21 @@ Section KMV.
 
   Definition kmv_mem (r : R) (l : list R) : bool := existsb (eqb r) l.
 
-  (* BinaryHeap::push on the descending content list *)
+  (* BinaryHeap::push on the ascending content list *)
   Fixpoint kmv_push (r : R) (l : list R) : list R :=
     match l with
     | [] => [r]
-    | y :: t => if ltb y r then r :: l else y :: kmv_push r t
+    | y :: t => if ltb r y then r :: l else y :: kmv_push r t
+    end.
+
+  (* split off the last element (the heap's maximum): Some (rest, max) *)
+  Fixpoint unsnoc (l : list R) : option (list R * R) :=
+    match l with
+    | [] => None
+    | x :: t => match unsnoc t with
+                | None => Some ([], x)
+                | Some (i, z) => Some (x :: i, z)
+                end
     end.
 
   (* KMVAcc::try_insert *)
@@ -44,25 +56,26 @@ Section KMV.
     if kmv_mem r (k_items a) then a                               (* !set.insert(r) *)
     else if length (k_items a) <? k_k a
     then {| k_items := kmv_push r (k_items a); k_k := k_k a |}    (* heap.len() < k *)
-    else match k_items a with
-         | rk :: rest =>                                          (* heap.peek() *)
+    else match unsnoc (k_items a) with
+         | Some (rest, rk) =>                                     (* heap.peek() *)
              if ltb r rk
              then {| k_items := kmv_push r rest; k_k := k_k a |}  (* pop, push *)
              else a                                               (* forget r *)
-         | [] => a                 (* k = 0: excluded by the constructor's k.max(4) *)
+         | None => a               (* k = 0: excluded by the constructor's k.max(4) *)
          end.
 
   (* KMVAcc::merge_from: pops other's heap (largest first) and try_inserts each *)
-  Definition merge_from (a other : kmv R) : kmv R := fold_left try_insert (k_items other) a.
+  Definition merge_from (a other : kmv R) : kmv R :=
+    fold_left try_insert (rev (k_items other)) a.
 
   (* KMVAcc::finish *)
   Definition kmv_finish (a : kmv R) : kmv_out R :=
     let m := length (k_items a) in
     if m =? 0 then KCount 0
     else if m <? k_k a then KCount m
-    else match k_items a with
-         | rk :: _ => KEstimate (k_k a) rk
-         | [] => KCount 0
+    else match unsnoc (k_items a) with
+         | Some (_, rk) => KEstimate (k_k a) rk
+         | None => KCount 0
          end.
 
   (* build_from_group / a partition's local accumulation *)
@@ -79,4 +92,17 @@ Section KMV.
   Definition usort (l : list R) : list R := fold_right uinsert [] l.
   (* the k smallest distinct ranks, ascending *)
   Definition ksmallest (k : nat) (l : list R) : list R := firstn k (usort l).
+  (* what finish should return for the multiset of ranks l and sketch size k *)
+  Definition kmv_spec (k : nat) (l : list R) : kmv_out R :=
+    let u := usort l in
+    if length u <? k then KCount (length u)
+    else match nth_error u (k - 1) with
+         | Some rk => KEstimate k rk
+         | None => KCount 0
+         end.
+
+  (* KMVApproxDistinctCount<T> as a combiner over ranks (CombineFn + LiftableCombiner) *)
+  Definition kmv_combiner (k : nat) : combiner R (kmv R) (kmv_out R) :=
+    {| c_create := kmv_new k; c_add := try_insert; c_merge := merge_from;
+       c_finish := kmv_finish; c_build := kmv_build k |}.
 End KMV.
